@@ -5,6 +5,7 @@
 #   tools/mutest.sh <name> --edit                          just (re)create the private worktree and print its path, so you can
 #                                                          edit files there by hand; then: tools/mutest.sh <name> --run <ID>...
 #   tools/mutest.sh <name> --baseline                      run the 53-test baseline against the private worktree
+#   tools/mutest.sh <name> --revert <commit> <ID>...       undo one commit of /repo (e.g. a fix:) in the private worktree, run checks
 #   tools/mutest.sh <name> --clean                         remove the private worktree and verif copy
 set -e
 name=$1; shift
@@ -24,6 +25,7 @@ case "$1" in
   --edit) mkwt; echo $wt;;
   --run) shift; run "$@";;
   --baseline) VERIF_REPO=$wt python3 /verif/tools/baseline.py;;
+  --revert) c=$2; shift; shift; mkwt; git -C /repo show $c | git -C $wt apply -R; git -C $wt diff --stat | tail -1; run "$@";;
   *) patch=$1; shift; mkwt
      if [ "$patch" = "-" ]; then git -C $wt apply -; else git -C $wt apply "$patch"; fi
      git -C $wt diff --stat | tail -1
